@@ -258,24 +258,30 @@ func init() {
 			}
 			// (G) decorators arriving through one pattern whose wildcard spans directories: the files are merged in the
 			// lexical order of their cleaned paths, which is not the order directory-by-directory
-			for gi, dirs := range [][2]string{{"http", "http-admin"}, {"conf", "conf.d"}, {"x", "x+y"}, {"b", "a"}, {"a", "b"}, {"m", "m0"}} {
+			for gi, dirs := range [][2]string{{"http", "http-admin"}, {"conf", "conf.d"}, {"x", "x+y"}, {"b", "a"}, {"a", "b"}, {"m", "m0"},
+				{"http", "http-admin"}, {"b", "a"}} {
+				// the pattern that is given first is merged first, whatever its files are called
+				baseName := "base.yaml"
+				if gi >= 6 {
+					baseName = "zz-sorts-last.yaml"
+				}
 				da, db := "conf/"+dirs[0]+"/10.yaml", "conf/"+dirs[1]+"/10.yaml"
 				fa := &Cfg{Decorators: []Decorator{{Tag: "t", Decorator: "pk.Dec1", Args: []any{dirs[0]}}}, Services: []Service{{Name: "sa", Calls: []Call{{Method: "Set1", Args: []any{"from " + dirs[0]}}}}}}
 				fb := &Cfg{Decorators: []Decorator{{Tag: "t", Decorator: "pk2.Dec2", Args: []any{dirs[1]}}}, Services: []Service{{Name: "sa", Calls: []Call{{Method: "Set2", Args: []any{"from " + dirs[1]}}}}}}
-				base := &Cfg{Meta: stdMeta(), Services: []Service{
-					{Name: "sa", Constructor: P("pk.New1"), Tags: []Tag{{Name: "t"}}},
+				base := &Cfg{Meta: stdMeta(), Decorators: []Decorator{{Tag: "t", Decorator: "pk.Dec3", Args: []any{"base"}}}, Services: []Service{
+					{Name: "sa", Constructor: P("pk.New1"), Tags: []Tag{{Name: "t"}}, Calls: []Call{{Method: "Set1", Args: []any{"from base"}}}},
 					{Name: "sb", Constructor: P("pk.New2")}, {Name: "sc", Constructor: P("pk.New3")},
 					{Name: "consumer", Constructor: P("pk2.New"), Args: []any{"!tagged t"}}}}
 				first, second := fa, fb
 				if db < da {
 					first, second = fb, fa
 				}
-				merged := &Cfg{Meta: stdMeta(), Decorators: append(append([]Decorator{}, first.Decorators...), second.Decorators...), Services: []Service{
-					{Name: "sa", Constructor: P("pk.New1"), Tags: []Tag{{Name: "t"}}, Calls: append(append([]Call{}, first.Services[0].Calls...), second.Services[0].Calls...)},
+				merged := &Cfg{Meta: stdMeta(), Decorators: append(append(append([]Decorator{}, base.Decorators...), first.Decorators...), second.Decorators...), Services: []Service{
+					{Name: "sa", Constructor: P("pk.New1"), Tags: []Tag{{Name: "t"}}, Calls: append(append(append([]Call{}, base.Services[0].Calls...), first.Services[0].Calls...), second.Services[0].Calls...)},
 					{Name: "sb", Constructor: P("pk.New2")}, {Name: "sc", Constructor: P("pk.New3")},
 					{Name: "consumer", Constructor: P("pk2.New"), Args: []any{"!tagged t"}}}}
 				cases = append(cases, &BCase{ID: fmt.Sprintf("G/wildcard-directories=%d", gi), Cfg: merged,
-					Files: []File{{"base.yaml", base.YAML()}, {da, fa.YAML()}, {db, fb.YAML()}}, Patterns: []string{"base.yaml", "conf/*/*.yaml"}, Sessions: []BSession{{Ops: stdOps()}}})
+					Files: []File{{baseName, base.YAML()}, {da, fa.YAML()}, {db, fb.YAML()}}, Patterns: []string{baseName, "conf/*/*.yaml"}, Sessions: []BSession{{Ops: stdOps()}}})
 			}
 			// (H) "service name ascending" on names that differ in case, digits and separators: equal priorities, and one
 			// priority tie broken against the name order
